@@ -1206,6 +1206,14 @@ where
     };
     let r = b.build();
     write!(o, "b={}", show_res(&r)).unwrap();
+    if script == "-" {
+        // the other two ways of saying the same thing: `GenericPurl::new` and `GenericPurl::builder(..).build()`
+        let via_new = GenericPurl::new(T::make(ty)?, unh(name)?.as_str());
+        let via_builder = GenericPurl::builder(T::make(ty)?, unh(name)?.as_str()).build();
+        if show_res(&via_new) != show_res(&r) || show_res(&via_builder) != show_res(&r) {
+            o.push_str("!new");
+        }
+    }
     if let Ok(p) = &r {
         let s1 = p.to_string();
         write!(o, " s={} p2={}", h(&s1), reparse(&s1)).unwrap();
